@@ -112,6 +112,12 @@ func (sim *Simulation) executeQueue(phase info.BattlePhase, next stateFn) (state
 			continue
 		}
 
+		// a target that was in limbo when the turn ended is removed by the death check but keeps its
+		// limbo state: it is just as dead, so its inserts are dropped too
+		if !sim.onField(insert.Source) {
+			continue
+		}
+
 		// if the source has an abort flag, skip this insert
 		if sim.HasBehaviorFlag(insert.Source, insert.AbortFlags...) {
 			continue
